@@ -261,6 +261,15 @@ _W7 = {
     "C17": " Seventh-wave additions: long sessions (action after 26-30 s, silent connections dropped by the idle limit first); listeners whose peers all report one remote address (callback oracles become totals); panics with uncomparable values.",
     "C19": " Seventh-wave additions: hooks of a value type installed by value; wrapped timeout errors on all client kinds.",
 }
+_W9 = {
+    "C07": " Ninth-wave addition: a third of the network clients are built with NewClient and the protocol's functions.",
+    "C08": " Ninth-wave addition: the faulty exchange may follow a healthy one and a reconnect (Connect again, or Close then Connect).",
+    "C11": " Ninth-wave addition: hand-made coil field lists over the same response (a coil under two names, addresses before and beyond the payload), lenient extraction.",
+    "C13": " Ninth-wave addition: read kind FieldExtractFrom (one field definition decoded from the caller's own Registers view).",
+    "C15": " Ninth-wave addition: bursts of 3-8 maximum-size write requests sent back to back.",
+    "C16": " Ninth-wave addition: in an eighth of the runs the subject sends early (two requests in one write, the rest a little later); those runs are checked on the stream as a whole: every frame addressed to one of the requests, none answered twice, in request order, exception shape per class.",
+    "C19": " Ninth-wave addition: bytes of something else right behind the reply, in the same read.",
+}
 for _k, _v in _W3.items():
     META[_k]["rule"] += _v
 for _k, _v in _W4.items():
@@ -270,4 +279,6 @@ for _k, _v in _W5.items():
 for _k, _v in _W6.items():
     META[_k]["rule"] += _v
 for _k, _v in _W7.items():
+    META[_k]["rule"] += _v
+for _k, _v in _W9.items():
     META[_k]["rule"] += _v
